@@ -6,9 +6,12 @@
 (*   {"ev":"frame","dlen":n,"total":len,"head":[first bytes]}              *)
 (*   {"ev":"read","kind":"valid"|"cut"|"damaged","dlen":n,"frame":len,     *)
 (*    "suffix":k,"ok":bool,"consumed":c,"produced":m,"maxreq":r}           *)
+(*   {"ev":"stored","d":[content],"z":[payload]}   a frame written at      *)
+(*    level 0: the payload is a stream of stored blocks whose value, by    *)
+(*    Deflate!Inflate, is the content, and nothing follows the final block *)
 (* Each event must be one the framing specification allows.                *)
 (***************************************************************************)
-EXTENDS Compressed, Json, IOUtils, TLC, Sequences
+EXTENDS Deflate, Json, IOUtils, TLC, Sequences
 Rec == ndJsonDeserialize(IOEnv.TRACE)
 VARIABLE l
 Pair(n) == <<n \div P28, n % P28>>
@@ -27,9 +30,10 @@ ReadEvent(e) ==
          ~e.ok
     [] e.kind = "damaged" -> \* anything goes except an out-of-proportion reservation
          AllocAllowed(e.maxreq, e.produced)
+StoredEvent(e) == LET r == Inflate(e.z) IN r.ok /\ r.d = e.d /\ r.next = Len(e.z) + 1
 Init == l = 1
 Next == /\ l <= Len(Rec)
-        /\ LET e == Rec[l] IN IF e.ev = "frame" THEN FrameEvent(e) ELSE ReadEvent(e)
+        /\ LET e == Rec[l] IN IF e.ev = "frame" THEN FrameEvent(e) ELSE IF e.ev = "stored" THEN StoredEvent(e) ELSE ReadEvent(e)
         /\ l' = l + 1
 Spec == Init /\ [][Next]_l
 \* accepted iff every event was consumed; otherwise print the first one the specification refuses
